@@ -133,6 +133,8 @@ func refSearch(db *database.Database, terms []string, boosts map[string]float64,
 	return scores
 }
 
+var nlpStopWords = nlp.StopWords()
+
 func init() {
 	// C03: the real index + SearchUniversal (NLP off) against an independent exhaustive scan.
 	suites["C03-index-scan"] = func() result {
